@@ -61,6 +61,8 @@ verdict = None
 if ok and "--no-check" not in sys.argv:
     rc, out = sh("git -C /repo apply %s" % os.path.abspath(os.path.join(src, "patch.diff")))
     assert rc == 0, out
+    evf = os.path.join(V, "evidence", prop + ".json")
+    ev_keep = open(evf).read() if os.path.exists(evf) else None
     try:
         t0 = time.time()
         rc, out = sh("./check %s --tier %s" % (prop, tier), cwd=V, timeout=7200)
@@ -69,6 +71,9 @@ if ok and "--no-check" not in sys.argv:
         ran.append("git -C /repo apply; ./check %s --tier %s -> exit %d; git -C /repo checkout -- ." % (prop, tier, rc))
     finally:
         sh("git -C /repo checkout -- .")
+        # evidence written against a seeded tree must not replace the evidence of the real tree
+        if ev_keep is not None:
+            open(evf, "w").write(ev_keep)
         # replays produced against a seeded tree are not findings on /repo
         shutil.rmtree(os.path.join(V, "replays", prop), ignore_errors=True)
 
